@@ -492,7 +492,7 @@ CS_TY = {"sbyte": "I8", "byte": "U8", "short": "I16", "ushort": "U16", "int": "I
          "ulong": "U64", "bool": "TBool", "float": "TF32", "double": "TF64", "nint": "TPtr"}
 GO_TY = {"int8": "I8", "uint8": "U8", "int16": "I16", "uint16": "U16", "int32": "I32", "uint32": "U32", "int64": "I64",
          "uint64": "U64", "bool": "TBool", "float32": "TF32", "float64": "TF64", "rune": "I32", "uintptr": "TUsize"}
-D_TY = {"byte": "I8", "ubyte": "U8", "short": "I16", "ushort": "U16", "int": "I32", "uint": "U32", "long": "I64",
+D_TY = {"char": "U8", "wchar": "U16", "byte": "I8", "ubyte": "U8", "short": "I16", "ushort": "U16", "int": "I32", "uint": "U32", "long": "I64",
         "ulong": "U64", "bool": "TBool", "float": "TF32", "double": "TF64", "dchar": "TChar", "size_t": "TUsize",
         "void*": "TPtr"}
 MBT_TY = {"Int": "MInt", "UInt": "MUInt", "Int64": "MInt64", "UInt64": "MUInt64", "Byte": "MByte", "Bool": "MBool",
@@ -1585,6 +1585,56 @@ class Result:
     pass
 
 
+MIRROR = {"root": None}
+
+
+def setup_paths():
+    """When the check runs against a scratch copy of wit-bindgen (VERIF_REPO=...; mutation testing), work on a
+    PRIVATE mirror of the Scalar part of coq/ (build/mirror-<tag>/coq) so that the shared tree's Generated.v is
+    never overwritten with another repository's data.  Points vf.COQ at the mirror for this process."""
+    if os.path.realpath(vf.REPO) == "/repo" or MIRROR["root"]:
+        return MIRROR["root"]
+    tag = hashlib.sha256(os.path.realpath(vf.REPO).encode()).hexdigest()[:10]
+    root = os.path.join(vf.BUILD, "mirror-" + tag)
+    src = os.path.join(vf.ROOT, "coq", "theories")
+    dst = os.path.join(root, "coq", "theories")
+    for sub in ("Scalar", "Props", "Extract"):
+        os.makedirs(os.path.join(dst, sub), exist_ok=True)
+    os.makedirs(os.path.join(root, "extracted"), exist_ok=True)
+    import shutil
+    for f in os.listdir(os.path.join(src, "Scalar")):
+        if f.endswith(".v") and not f.startswith("Generated"):
+            a, b = os.path.join(src, "Scalar", f), os.path.join(dst, "Scalar", f)
+            if not os.path.exists(b) or open(a).read() != open(b).read():
+                shutil.copy(a, b)
+    a, b = os.path.join(src, "Props", "C14.v"), os.path.join(dst, "Props", "C14.v")
+    if not os.path.exists(b) or open(a).read() != open(b).read():
+        shutil.copy(a, b)
+    ex = open(os.path.join(src, "Extract", "ExScalar.v")).read().replace("../build/extracted/scalar_model.ml", "../extracted/scalar_model.ml")
+    write_if_changed(os.path.join(dst, "Extract", "ExScalar.v"), ex)
+    vf.COQ = os.path.join(root, "coq")
+    MIRROR["root"] = root
+    return root
+
+
+def extracted_dir():
+    return os.path.join(MIRROR["root"], "extracted") if MIRROR["root"] else os.path.join(vf.BUILD, "extracted")
+
+
+def build_driver():
+    if not MIRROR["root"]:
+        return vf.ocaml_build("scalar_driver", ["scalar_model"], ["util.ml", "scalar_driver.ml"])
+    import shutil
+    d = os.path.join(MIRROR["root"], "ocaml")
+    os.makedirs(d, exist_ok=True)
+    for f in ("scalar_model.mli", "scalar_model.ml"):
+        shutil.copy(os.path.join(extracted_dir(), f), d)
+    for f in ("util.ml", "scalar_driver.ml"):
+        shutil.copy(os.path.join(vf.ROOT, "ocaml", f), d)
+    rc, out = vf.sh(["ocamlfind", "ocamlopt", "-O3", "-w", "-a", "scalar_model.mli", "scalar_model.ml", "util.ml", "scalar_driver.ml", "-o", "scalar_driver"], cwd=d, timeout=600)
+    return rc == 0, os.path.join(d, "scalar_driver"), out
+
+
 def gather(log=vf.log):
     """Run every generator on the probe worlds, scrape and translate.  Returns (sites, casts, errors, raw)."""
     ok, exe, blog = genlib.build()
@@ -1604,15 +1654,24 @@ def gather(log=vf.log):
             if which == "scalar":
                 ss = SCRAPERS[lang](r[1])
                 for s in ss:
-                    translate_site(s)
+                    try:
+                        translate_site(s)
+                    except ScrapeError as e:       # this site only: the others are still judged
+                        s.coq, s.error = [], str(e)
+                        errors.append((lang, which, "site %s %s `%s`: %s" % (s.key, s.site, s.text, e)))
                 sites += ss
             else:
                 cs = CAST_SCRAPERS[lang](r[1])
                 for k in cs:
-                    translate_cast(k)
+                    try:
+                        translate_cast(k)
+                    except ScrapeError as e:
+                        k.coq, k.error = None, str(e)
+                        k.unmodelled = "not parsed: %s" % e
+                        errors.append((lang, which, "cast site %s `%s`: %s" % (k.where, k.text, e)))
                 casts += cs
         except ScrapeError as e:
-            errors.append((lang, which, "scrape/translate: %s" % e))
+            errors.append((lang, which, "scrape: %s" % e))
     return sites, casts, errors, raw
 
 
@@ -1621,7 +1680,8 @@ def regenerate(inputs=None, big_inputs=None, log=vf.log, native=False):
     Returns a Result with: sites, casts, errors, verdicts (name -> dict), cast_verdicts, spec_mirror_ok,
     and with native=True the native (rustc/clang) evaluations of the scraped Rust and C text compared with
     the Coq semantics (R.native, R.native_mismatches, R.native_error)."""
-    with vf.Lock("scalar"):
+    setup_paths()
+    with vf.Lock("scalar" + (os.path.basename(MIRROR["root"]) if MIRROR["root"] else "")):
         return _regenerate(inputs, big_inputs, log, native)
 
 
@@ -1644,7 +1704,7 @@ def _regenerate(inputs, big_inputs, log, native):
     srcs = [os.path.join(sd, f) for f in ("Expr.v", "ScalarSpec.v", "Normalize.v", "NormalizeProofs.v", "Generated.v")] + \
            [os.path.join(vf.COQ, "theories", "Extract", "ExScalar.v")]
     outs = [os.path.join(sd, "Generated.vo"), os.path.join(sd, "NormalizeProofs.vo"), os.path.join(vf.COQ, "theories", "Extract", "ExScalar.vo"),
-            os.path.join(vf.BUILD, "extracted", "scalar_model.ml")]
+            os.path.join(extracted_dir(), "scalar_model.ml")]
     if all(os.path.exists(v) for v in outs) and min(os.path.getmtime(v) for v in outs) > max(os.path.getmtime(f) for f in srcs):
         ok, out = True, "up to date"
     else:
@@ -1657,7 +1717,7 @@ def _regenerate(inputs, big_inputs, log, native):
         _empty(R, inputs)
         write_props(R)
         return R
-    ok, exe, olog = vf.ocaml_build("scalar_driver", ["scalar_model"], ["util.ml", "scalar_driver.ml"])
+    ok, exe, olog = build_driver()
     if not ok:
         R.errors.append(("*", "coq", "extracted model does not build:\n" + olog[-2000:]))
         _empty(R, inputs)
@@ -1702,6 +1762,7 @@ def _regenerate(inputs, big_inputs, log, native):
     for nm in ureps:
         i = idx[nm]
         add("chk c %d" % i, "chk", nm); add("elab c %d" % i, "elab", nm); add("b01 %d" % i, "b01", nm)
+        add("bad c %d 0 1" % i, "bad01", nm)
         add("bad c %d %s" % (i, bigs), "bad", nm)
     for nm in cureps:
         i = cidx[nm]
@@ -1713,6 +1774,8 @@ def _regenerate(inputs, big_inputs, log, native):
     for ident, modes in sorted(R.native.items()):
         for mode, vals in sorted(modes.items()):
             nm = ident + "_dbg" if (mode == "debug" and ident + "_dbg" in all_idents) else ident
+            if nm not in idx:
+                continue          # site outside the modelled fragment: judged on the native results only
             nat_lists.append((nm, mode, vals))
             add("ev c %d %s" % (idx[nm], " ".join(hexz(x) for x, _ in vals)), "nat", len(nat_lists) - 1)
     beh_names = [s.ident(suf) for s, suf in names if s.dir == "lift" and s.ty in ("bool", "char") and s.site == "export-param"]
@@ -1736,7 +1799,7 @@ def _regenerate(inputs, big_inputs, log, native):
         k = tag[0]
         if k in ("chk", "elab", "b01", "cchk", "celab"):
             A[(k, tag[1])] = (o == "1")
-        elif k in ("bad", "cbad"):
+        elif k in ("bad", "cbad", "bad01"):
             A[(k, tag[1])] = None if o == "-" else int(o, 16)
         elif k == "cprobe":
             probes[tag[1]] = [unhex(t) for t in o.split()]
@@ -1759,12 +1822,21 @@ def _regenerate(inputs, big_inputs, log, native):
             for x, t_ in zip(tag[2], o.split()):
                 if unhex(t_) != spec_lift(tag[1], x):
                     mism.append(("lift", tag[1], x, "coq %s" % t_, "python %s" % spec_lift(tag[1], x)))
+    # what the emitted expression gives at each witness
+    wcmds, wtags = [], []
+    for nm in ureps:
+        for which in ("bad", "bad01"):
+            if A[(which, nm)] is not None:
+                wcmds.append("ev c %d %s" % (idx[nm], hexz(A[(which, nm)]))); wtags.append((which, nm))
+    wout = vf.run_filter([exe], wcmds, shards=1) if wcmds else []
+    W = {t: ("trap/panic/undefined" if o == "N" else int(o, 16)) for t, o in zip(wtags, wout)}
     R.verdicts = {}
     for s, suf in names:
         nm = s.ident(suf)
         r = rep_of[nm]
         R.verdicts[nm] = {"site": s, "suffix": suf, "check": A[("chk", r)], "elab": A[("elab", r)], "bad": A[("bad", r)],
-                          "bool01": A[("b01", r)]}
+                          "bool01": A[("b01", r)], "bad01": A[("bad01", r)],
+                          "bad_value": W.get(("bad", r)), "bad01_value": W.get(("bad01", r))}
     R.behaviour = {}
     for nm, vals in behs.items():
         st = R.verdicts[nm]["site"]
@@ -1839,10 +1911,17 @@ def in_cty(cty, v):
     return lo <= v < hi
 
 
+EXHAUSTIVE_NATIVE = {"on": False}
+
+
 def site_inputs(s, inputs):
-    """inputs a site can be run on natively: values of the variable's type (chars: scalar values only)."""
+    """inputs a site can be run on natively: values of the variable's type (chars: scalar values only).
+    With EXHAUSTIVE_NATIVE (thorough tier) a lowering from a narrow type gets its WHOLE domain."""
     cty = site_src_cty(s)
     xs = [v for v in inputs if in_cty(cty, v)]
+    if EXHAUSTIVE_NATIVE["on"] and s.dir == "lower" and s.ty in ("bool", "u8", "s8", "u16", "s16"):
+        lo, hi = WIT_RANGE[s.ty]
+        xs = list(range(lo, hi))
     if (s.lang == "rust" and s.src == "char") or (s.lang == "moonbit" and s.src == "Char"):
         xs = [v for v in xs if is_scalar_value(v)]
     return xs
@@ -1860,6 +1939,8 @@ def native_rust(sites, inputs, rs_text, tag="scalar"):
     rt = "mod _rt {" + balanced(rs_text, m.end() - 1) + "}\n" if m else ""
     fns, arms = [], []
     rsites = [s for s in sites if s.lang == "rust"]
+    if not rsites:
+        return {}
     for i, s in enumerate(rsites):
         fns.append("unsafe fn f%d(%s: %s) -> %s { %s }" % (i, s.var, s.src, s.dst, s.text))
         arg = RUST_ARG.get(s.src, "(v as %s)" % s.src)
@@ -1922,6 +2003,8 @@ def native_c(sites, inputs, c_text, tag="scalar"):
     d = os.path.join(vf.BUILD, "scalar", "native")
     os.makedirs(d, exist_ok=True)
     csites = [s for s in sites if s.lang == "c"]
+    if not csites:
+        return {}
     unions = "\n".join(m.group(0) for m in re.finditer(r"union \w+ \{[^}]*\};", c_text))
     fns, arms = [], []
     for i, s in enumerate(csites):
@@ -2070,11 +2153,11 @@ def backend_casts_leg(ctx, R=None):
             a["ok"] = False
             x = v["bad"]
             exp = bitcast_sem(k.cast, x % (1 << fb)) % (1 << tb)
-            probes = dict(zip([-1, 2147483648, 4294967295, 2147483647], v["probe"]))
-            srcr = None
+            scty = RTY_CTY[RUST_TY[k.src]] if k.lang == "rust" else C_TY[k.src] if k.lang == "c" else MTY_CTY[MBT_TY[k.src]]
+            probes = {p: r for p, r in zip([-1, 2147483648, 4294967295, 2147483647], v["probe"]) if in_cty(scty, p)}
             a["details"].append("`%s` [%s: %s -> %s] at x=%d: spec 0x%x, emitted code gives %s  (%s)" % (
                 " ".join(k.text.split())[:120], k.var, k.src, k.dst, x, exp,
-                "; ".join("f(%d)=0x%x" % (p, r % (1 << tb)) for p, r in probes.items() if r != NONE and (p == x or p in (-1, 4294967295))),
+                "; ".join("f(%d)=0x%x" % (p, r % (1 << tb)) for p, r in probes.items() if r != NONE),
                 "sign-extends where the canonical ABI zero-extends" if fb < tb else "differs"))
         else:
             a["ok"] = None if a["ok"] is not False else False
